@@ -600,6 +600,20 @@ func (e *Evaluator) evalBinaryExpr(expr *ExprBinary) (*Cell, error) {
 			memberVal.ParentObj = &left.Value
 			return NewCell(memberVal), nil
 		}
+		if member.Value.Tag == ValueNativeFn && member.Value.ParentObj == nil {
+			// a method: its cell belongs to the prototype and is shared by every
+			// value of this type, so bind the receiver on a copy. otherwise a
+			// method call nested in another one's arguments would steal its
+			// receiver, and an assignment would overwrite the method for everyone.
+			// the copy remembers where it came from, like a speculative member,
+			// so that assigning to it stores a member on the receiver instead
+			method := member.Value
+			method.Binding = &left.Value
+			method.ParentObj = &left.Value
+			key := right.Value.String()
+			method.Str = &key
+			return NewCell(method), nil
+		}
 		member.Value.Binding = &left.Value
 
 		return member, nil
@@ -764,7 +778,7 @@ func (e *Evaluator) createSpeculativeObjects(specObj *Cell) (*Cell, error) {
 }
 
 func (e *Evaluator) evalAssignment(expr Expr, left *Cell, right *Cell) (*Cell, error) {
-	if left.Value.Tag == ValueNil && left.Value.ParentObj != nil {
+	if (left.Value.Tag == ValueNil || left.Value.Tag == ValueNativeFn) && left.Value.ParentObj != nil {
 		// speculative object creation
 		var err error
 		left, err = e.createSpeculativeObjects(left)
